@@ -4,7 +4,8 @@ Differential oracle against a fresh interpreter state: the checking process is a
 executed); a history of catalogue calls runs in forked child A, every call of it runs alone in its own forked child B_i;
 observations must agree and argument buffers must be left unchanged (documented in-place Hamming repairs excepted).
 Wall-clock / randomness clause: two fresh interpreters with pinned clocks 400 days apart and different random streams
-must agree on every parsing call.  Machinery: vp/purity.py.
+must agree on every parsing call; a third one (same clock, PYTHONMALLOC=debug) must agree on every call, which makes a
+dependence on uninitialised memory (heap state left by earlier calls) visible.  Machinery: vp/purity.py.
 """
 from __future__ import annotations
 
@@ -1117,7 +1118,8 @@ RULE = (
     "one; constructors with default arguments mixed with parsers; half of the histories are followed by a fixed suffix of 'state probe' calls that dump the cached CRC "
     "tables, the LRRP token tables and default-argument objects) plus the complete set of ordered pairs of canonical calls (pairs sub-check).  "
     "Non-trivial: >= 2 calls of the same group in one history (the later one is compared against its run in a fresh state); distinct by hash of the "
-    "history.  Clock sub-check: the same call lists evaluated in two fresh interpreters (clock pinned 400 days apart, different random streams)."
+    "history.  Clock sub-check: the same call lists evaluated in three fresh interpreters (clock pinned 400 days apart + different random streams; same clock but "
+    "PYTHONMALLOC=debug so that uninitialised memory reads 0xCD)."
 )
 ASSUMPTIONS = [
     "a forked child of a process that has imported the library and executed none of its functions is 'a fresh interpreter state' (import-time state "
@@ -1129,6 +1131,10 @@ ASSUMPTIONS = [
     "only library calls are made between the compared calls: a caller that scribbles on returned buffers or on attributes of returned objects is outside "
     "the statement",
     "exemptions for argument buffers: HammingCommon.check_and_correct and BPTC19696.repair_if_necessary(deinterleaved=True) (documented in-place repair)",
+    "a result that differs between CPython's normal and debug (0xCD-filling) allocator depends on uninitialised memory, i.e. on what earlier calls left "
+    "on the heap; this is judged under the first clause of the statement (same arguments, same result)",
+    "not in the catalogue (not codec entry points or setters by contract): transmission/terminal/timeslot tracking, datagram protocols, storage, tools, SNMP, "
+    "fill_encoding_table / set_parity (write into their numpy argument by name), object setters (set_sequence_no, add_option, context, ...)",
 ]
 
 CHILD_TIMEOUT = 120.0
@@ -1257,13 +1263,19 @@ def _close_zygotes():
 
 
 def oracle_clock(case):
-    """case = {calls: [...]}: every *parsing* call must be observed identically in the two clock/randomness zygotes."""
+    """case = {calls: [...]}.  Three fresh interpreters run the calls: Z0 (clock 2020-09-13), Z1 (clock + 400 days, other random
+    streams), Z2 (as Z0 but PYTHONMALLOC=debug: fresh memory is filled with 0xCD).  Every call must be observed identically in Z0
+    and Z2 (a result must not depend on uninitialised memory); every *parsing* call identically in Z0 and Z1."""
     calls = case["calls"]
     for c in calls:
         _check_catalogue_call(c)
-    o0, o1 = _zygotes().run(calls, CHILD_TIMEOUT)
+    o0, o1, o2 = _zygotes().run(calls, CHILD_TIMEOUT)
     _LAST.clear()
     _LAST.update(nonparsing_differences=[])
+    for i, c in enumerate(calls):
+        if o0[i] != o2[i]:
+            raise Fail("result_independent_of_uninitialised_memory", observed={"call_index": i, "entry": c["e"], "first_difference": _first_diff(o0[i], o2[i], "$", "normal_allocator", "debug_allocator_0xCD_fill")},
+                       expected="equal observations in two interpreters that differ only in the content of freshly allocated memory", klass=c["e"])
     for i, c in enumerate(calls):
         if o0[i] == o1[i]:
             continue
@@ -1415,7 +1427,7 @@ def drv_history(ctx: Ctx, sub: SubCheck):
     strat = history_strategy()
 
     def work(shard, t: Tally):
-        ctx.hypothesis(sub.name, strat, oracle_history, ctx.pick(40, 1200), tally=t, shard=shard, record=_record(sub.name))
+        ctx.hypothesis(sub.name, strat, oracle_history, ctx.pick(40, 800), tally=t, shard=shard, record=_record(sub.name))
 
     ctx.shards(work, list(range(16)))
     ctx.tally.extra["catalogue_entries"] = len(CATALOGUE)
@@ -1536,7 +1548,7 @@ def drv_clock(ctx: Ctx, sub: SubCheck):
 SUBCHECKS = [
     SubCheck("history", oracle_history, drv_history, "Hypothesis histories of 1..12 catalogue calls: child A (history) vs children B_i (call alone); argument buffers unchanged"),
     SubCheck("pairs", oracle_history, drv_pairs, "every ordered pair of canonical calls (writer, reader), same differential oracle"),
-    SubCheck("clock", oracle_clock, drv_clock, "parsing calls agree between two fresh interpreters with clocks pinned 400 days apart and different random streams"),
+    SubCheck("clock", oracle_clock, drv_clock, "three fresh interpreters: parsing calls agree under clocks pinned 400 days apart and different random streams; all calls agree under a 0xCD-filling allocator"),
 ]
 
 
